@@ -60,6 +60,12 @@ ASSUMPTIONS = [
     'not limited',
     'a symlink whose name matches a -hide pattern, and the hidden flag of a symlink, are unspecified and tolerated '
     'either way',
+    'with Rock Ridge and relocated (deeper than 8 levels) directories an empty rr_moved directory in the Rock Ridge view is '
+    'documented ("impossible to completely hide") and tolerated; relocation placeholders (records carrying CL) are not files',
+    'a file or symlink inside a level-8 directory without Rock Ridge (levels 1-3) is legal by ECMA-119 6.8.2.1 but refused by '
+    'the library by design (tests/integration/test_new.py::test_new_toodeepfile): the tool may keep or drop it, not crash',
+    'extract-files -path-type iso is exercised on a quarter of the cases against the own ISO9660 walker; a Rock Ridge symlink '
+    'extracted as a symlink there, and relocation placeholders extracted or skipped, are tolerated',
     'shell wildcard semantics of -m/-x/-hide*/-hidden are those of fnmatch on the file name component; generated '
     'patterns contain no path separators and do not begin with "-" (argparse rejects such an argument with a usage error)',
     'patterns that would exclude or hide the El Torito boot image or a file named like the boot catalog are not generated',
@@ -1038,6 +1044,10 @@ def run_case(case, col, focus=None, record=True):
     if fparts and fparts[1] == 'tool-exit' and fparts[2] == 'extract-files':
         only_view = fparts[3]
     stop_after_geniso = bool(fparts and fparts[1] == 'tool-exit' and fparts[2] == 'genisoimage')
+    image_only = bool(fparts and fparts[1] in ('iso', 'extensions', 'boot', 'pvd'))
+    iso_extract_only = bool(fparts and (fparts[1] == 'iso-extract' or fparts[1:4] == ['tool-exit', 'extract-files', 'iso']))
+    if iso_extract_only:
+        only_view = 'iso'
 
     work = _workdir()
     try:
@@ -1067,7 +1077,7 @@ def run_case(case, col, focus=None, record=True):
         if only_view is None:
             check_image(case, a, img, fail)
         for v in a['want']:
-            if only_view and v != only_view:
+            if image_only or (only_view and v != only_view):
                 continue
             dest = os.path.join(work, 'x_' + v)
             os.mkdir(dest)
@@ -1084,7 +1094,7 @@ def run_case(case, col, focus=None, record=True):
                      % (v, rc, se[-700:], so[-200:]))
                 continue
             compare_view(case, a, v, read_tree(dest), fail, col if record else None)
-        if o['iso_extract'] and only_view is None:
+        if o['iso_extract'] and not image_only and only_view in (None, 'iso'):
             dest = os.path.join(work, 'x_iso')
             os.mkdir(dest)
             rc, so, se = run_tool([PY, os.path.join(REPO, 'tools', 'pycdlib-extract-files'), '-path-type', 'iso',
